@@ -70,7 +70,7 @@ ASSUMPTIONS = [
 
 K1 = "C09-K1 AI lines of a renamed file are reported human (note is keyed by the old path, lookup uses the requested path)"
 K2 = "C09-K2 git-ai blame on an empty file exits 1 (`Invalid line range: 1:0`) where git blame exits 0"
-K4 = "C09-K4 `-L n` and `-L n,+k` are accepted but read as n,n (git: n to end of file / k lines from n)"
+K4 = "C09-K4 `-L n` is read as n,n and `-L n,+k` as n,k (git: n to end of file / k lines from n)"
 
 HEXD = "0123456789abcdef"
 FAKE_GIT = """#!/bin/sh
@@ -222,6 +222,28 @@ def note_for_model(raw):
 HDR = re.compile(r"^([0-9a-f]{40}) (\d+) (\d+)(?: (\d+))?$")
 
 
+def c_unquote(p):
+    """git's C-style path quoting (core.quotePath): "a\303\251" -> aé"""
+    if not (len(p) >= 2 and p[0] == '"' and p[-1] == '"'):
+        return p
+    body, out, i = p[1:-1], bytearray(), 0
+    esc = {"n": 10, "t": 9, "r": 13, "\\": 92, '"': 34, "a": 7, "b": 8, "f": 12, "v": 11}
+    while i < len(body):
+        c = body[i]
+        if c == "\\" and i + 1 < len(body):
+            d = body[i + 1]
+            if d in "01234567":
+                out.append(int(body[i + 1:i + 4], 8))
+                i += 4
+            else:
+                out.append(esc.get(d, ord(d)))
+                i += 2
+        else:
+            out += c.encode("utf-8")
+            i += 1
+    return out.decode("utf-8", "replace")
+
+
 def read_line_porcelain(out):
     """`git blame --line-porcelain` -> [{final, orig, sha, filename, author, boundary}] (one per line)."""
     res = []
@@ -239,7 +261,7 @@ def read_line_porcelain(out):
         elif l.startswith("author "):
             cur["author"] = l[len("author "):]
         elif l.startswith("filename "):
-            cur["filename"] = l[len("filename "):]
+            cur["filename"] = c_unquote(l[len("filename "):])
         elif l == "boundary":
             cur["boundary"] = True
     return res
@@ -355,7 +377,7 @@ def gen_history(r):
     files = {}
     for n in r.shuffle(NAMES)[:r.range(1, 2)]:
         files[n] = h.fresh(r.range(4, 9))
-    steps = [("base", {p: list(ls) for p, ls in files.items()})]
+    steps = [("base", {p: text_of(ls) for p, ls in files.items()})]
     kinds = {}
     nsteps = r.range(3, 7)
     counter = [0]
@@ -515,7 +537,7 @@ def rfc3339(ts):
     return datetime.datetime.fromtimestamp(ts, datetime.timezone.utc).strftime("%Y-%m-%dT%H:%M:%SZ")
 
 
-def compare_one(sim, notes, path, opts, stats, single_L=False):
+def compare_one(sim, notes, path, opts, stats):
     """opts: list of CLI options accepted by both git and git-ai.  Returns (failures, known, porcelain_text, exp)."""
     fails, known = [], set()
     rc, out, err = sim.realgit("blame", "--line-porcelain", *opts, "--", path)
@@ -535,9 +557,6 @@ def compare_one(sim, notes, path, opts, stats, single_L=False):
 
     def classify(bad_lines, what, detail):
         """bad lines all inside Known_C09 (path in the commit differs from the requested path) -> K1"""
-        if single_L:
-            known.add(K4)
-            return
         if bad_lines and all(fname.get(l) is not None and fname.get(l) != path for l in bad_lines):
             known.add(K1)
         else:
@@ -628,6 +647,33 @@ def compare_one(sim, notes, path, opts, stats, single_L=False):
             classify(bad, f"{flag}: commit per line differs from git's own output",
                      {"git": {str(l): g.get(l) for l in sorted(bad)[:10]}, "gitai": {str(l): a.get(l) for l in sorted(bad)[:10]}})
     return fails, known, out, exp
+
+
+def probe_odd_L(sim, path, arg, a, n):
+    """-L forms that git-ai accepts but reads differently from git (`n` -> n,n ; `n,+k` -> n,k, see parse_line_range /
+    C09_single_number_range).  Same lines as git -> fine; rejected (exit 1) when the reading is not a valid range ->
+    not a supported option; exactly the predicted lines -> the known class; anything else -> failure."""
+    rc, out, _ = sim.realgit("blame", "--line-porcelain", "-L", arg, "--", path)
+    if rc != 0:
+        return None
+    git_lines = set(e["final"] for e in read_line_porcelain(out))
+    lo, hi = (a, a) if "," not in arg else (a, int(arg.split(",+")[1]))
+    valid = 1 <= lo <= hi <= n
+    rc, dout, derr = sim.gitai("blame", "-L", arg, path, env_extra={"GIT_PAGER": "cat", "PAGER": "cat"})
+    if rc != 0:
+        if not valid:
+            return None
+        return {"what": "git-ai blame -L <odd form> failed although its reading is a valid range", "path": path,
+                "opts": ["-L", arg], "err": derr[-200:]}
+    d = read_default(dout)
+    if d is None:
+        return {"what": "git-ai blame -L <odd form> printed an unreadable line", "path": path, "opts": ["-L", arg]}
+    if set(d) == git_lines:
+        return None
+    if valid and set(d) == set(range(lo, hi + 1)):
+        return K4
+    return {"what": "-L form read neither as git does nor as parse_line_range predicts", "path": path, "opts": ["-L", arg],
+            "bad_lines": sorted(set(d) ^ git_lines)}
 
 
 def lib_compare(sim, notes, home, path, mode_opts, stats):
@@ -765,14 +811,17 @@ def scenario(args):
                                                       "path": p, "binary": bj, "model": mj})
                                 except Exception:
                                     pass
-            # K4 probe (`-L n`): one per scenario
+            # K4 probe (`-L n`, `-L n,+k`): one per scenario
             if first and n >= 3:
                 first = False
                 a = r.range(1, n - 1)
-                o = ["-L", str(a)] if r.chance(1, 2) else ["-L", f"{a},+2"]
-                f, k, _, _ = compare_one(sim, notes, p, o, stats, single_L=True)
-                fails += f
-                known |= k
+                arg = str(a) if r.chance(1, 2) else f"{a},+{r.range(1, n)}"
+                v = probe_odd_L(sim, p, arg, a, n)
+                stats["optsets"]["L-odd"] = stats["optsets"].get("L-odd", 0) + 1
+                if v == K4:
+                    known.add(K4)
+                elif v is not None:
+                    fails.append(v)
             # options only the library accepts
             if r.chance(1, 2):
                 mo = {"w": True}
@@ -861,7 +910,7 @@ HUMANS = ["Test User <test@example.com>", "Ann <a@x>", None]
 
 
 def gen_note(r, k):
-    kind = r.weighted([(70, "valid"), (6, "nodivider"), (6, "version"), (6, "badjson"), (6, "none"), (6, "crlf")])
+    kind = r.weighted([(60, "valid"), (8, "nodivider"), (8, "version"), (8, "badjson"), (8, "none"), (8, "crlf")])
     if kind == "none":
         return kind, None
     lines = []
@@ -896,7 +945,7 @@ def gen_note(r, k):
     return kind, body
 
 
-def build_pool(base, r, n=28):
+def build_pool(base, r, n=36):
     sim = Sim(base, "pool")
     sim.init({p: "one\ntwo\nthree\n" for p in POOL_PATHS})
     pool = []          # [(sha, raw note or None, kind)] oldest first
@@ -935,7 +984,7 @@ def gen_porcelain(r, pool):
     out = []
     if kind == "soup":
         alpha = ["\t", " ", "\n", "a", "f", "1", "9", "author ", "boundary", "\r\n", "filename f.txt", "0", "abc 1 2 3", "abc 1 2",
-                 " ", "g", "author-mail <x>", r.pick(shas), " 4294967295", "-", "+3", "\u2003"]
+                 " ", "g", "author-mail <x>", r.pick(shas), " 4294967296", "-", "+3", "\u2003"]
         return kind, "".join(r.pick(alpha) for _ in range(r.range(0, 30)))
     fin = 1
     for _ in range(r.range(1, 5)):
